@@ -177,6 +177,19 @@ func SelfTest(dir string) string {
 	} else {
 		expect(false, "chain.Forward missing")
 	}
+	// OWN: pooled memory escaping
+	for _, tc := range []struct {
+		name    string
+		escapes bool
+	}{{"PoolEscape", true}, {"PoolCopy", false}} {
+		f := fn(tc.name)
+		if f == nil {
+			expect(false, tc.name+" missing")
+			continue
+		}
+		put, esc := poolEscapes(f)
+		expect(put != nil && (esc != nil) == tc.escapes, fmt.Sprintf("OWN primitive on %s: put found %v, escape found %v", tc.name, put != nil, esc != nil))
+	}
 	// LANG
 	{
 		ref, e1 := an.CompileLang(`a+b`)
